@@ -144,6 +144,21 @@ CHECKS = {
         technique="TLA+ spec (Interrupts.tla) + TLC exhaustive/simulate + trace validation of both machine models",
         engine="machine",
     ),
+    "C09": dict(
+        category="model_checking",
+        text="JudgeAsm.tla defines CanonEnc - the canonical reading of an encoding under the format specification and the README prefix rules (class, "
+             "mnemonic, condition, resolved operands with ignored bits dropped) - and the round-trip clauses Assembles, Equivalent (CanonEnc of the "
+             "assembled bytes = CanonEnc of the original), SameText, SameLift (IL digest), SecondRoundAssembles, Stable. Every accepted structural "
+             "encoding (prefix x opcode x mode byte x operand palette incl. 00/FF/7F/80 displacements; 42750 quick, all 15 prefixes thorough; "
+             "undocumented but accepted forms included) is rendered, turned into source text (TInt/TAddr tokens as 0x literals, named internal "
+             "registers by name), assembled by Assembler().assemble, disassembled and assembled again; TLC judges every record.",
+        design_ref="DESIGN.md section 4 (C09)",
+        note="Trusted: the text convention of checks/c09.text_of, decode_harness.il_digest, TLC. Eight open known findings, all disagreements between "
+             "sc_asm's and the renderer's conventions for internal-memory operands, several pinned by test_asm; keys carry structural tags (prefix-dropped, "
+             "shorter, combo, novalue, undoc, noimem-prefix) so that any other rejection or non-equivalence is still reported.",
+        technique="TLA+ canonical-encoding equivalence + TLC-judged disassemble/assemble round trips (code->spec)",
+        engine="isa",
+    ),
     "C11": dict(
         category="model_checking",
         text="MemoryBus.tla (memory as a function from alias classes to bytes; Store/Load of 1-3 bytes; ReadAfterWrite, Frame, "
@@ -228,7 +243,7 @@ ENGINES = [
     dict(name="mem", path="spec/mem", serves_properties=["C11"], kind_free_text="TLA+ memory bus over alias classes + trace spec"),
     dict(name="kbd", path="spec/kbd", serves_properties=["C14"], kind_free_text="TLA+ keyboard matrix automaton + monitors + trace spec"),
     dict(name="tables", path="spec/tables", serves_properties=["C17"], kind_free_text="TLA+ equalities over dumped tables/constants"),
-    dict(name="isa", path="spec/isa", serves_properties=["C01", "C02", "C03", "C04", "C05", "C06", "C07"], kind_free_text="TLA+ SC62015 instruction format (table + grammar) and batch judges"),
+    dict(name="isa", path="spec/isa", serves_properties=["C01", "C02", "C03", "C04", "C05", "C06", "C07", "C09"], kind_free_text="TLA+ SC62015 instruction format (table + grammar) and batch judges"),
     dict(name="lcd", path="spec/lcd", serves_properties=["C15"], kind_free_text="TLA+ HD61202 protocol + pixel map specs"),
     dict(name="sched", path="spec/sched", serves_properties=["C18"], kind_free_text="TLA+ virtual-time scheduler spec + trace spec"),
     dict(name="machine", path="spec/machine", serves_properties=["C12", "C13"], kind_free_text="TLA+ timers / interrupts / machine specs + trace specs"),
